@@ -126,7 +126,12 @@ impl QueryServerWriteTransaction<'_> {
                 // their attribute sets/states per the change state rules.
 
                 // This must create an EntryInvalidCommitted
-                let merge_ent = ctx_ent.merge_state(db_ent.as_ref(), &self.schema, self.trim_cid());
+                let merge_ent = ctx_ent.merge_state(
+                    db_ent.as_ref(),
+                    &self.schema,
+                    self.trim_cid(),
+                    self.get_cid(),
+                );
                 (merge_ent, db_ent)
             })
             .collect();
